@@ -90,6 +90,37 @@ def lin_cases(rep, rnd, tier):
             recs.append(rec)
             rep.nontrivial.add(("lin", cn, n, mk, rname, cfl, a, bctype, local))
             Qm = Qo
+        # the same relations along the MAIN trajectory of solve(), observed through save times placed at the end of every step
+        # (snapshots are taken between the steps: whatever they do must leave the recurrence of the full steps alone)
+        if c % 4 == 1 and not local:
+            solver2 = getattr(fd.tnum, cn)(m, rhs)
+            try:
+                res = solver2.solve(f0.copy(), cfl, [dt, 2 * dt, 3 * dt])
+            except Exception as ex:
+                recs.append(dict(kind="raised", what="%s: %s" % (type(ex).__name__, str(ex)[:100]), cls=cn, scheme="solve"))
+                continue
+            states = [f0] + list(res)
+            for s in range(1, len(states)):
+                Qo, Qn = states[s - 1].data[0], states[s].data[0]
+                h = float(states[s].time - states[s - 1].time)
+                if not h > 0:
+                    continue
+                sch = SCHEMES[cn]
+                if sch == "implicit":
+                    rr = relres(I - h * A, Qn, I, Qo, A, h, src=h * bvec)
+                    name = "implicit"
+                elif sch == "cn" or (sch == "gear" and s == 1):
+                    rr = relres(I - 0.5 * h * A, Qn, I + 0.5 * h * A, Qo, A, h, src=h * bvec)
+                    name = "cn" if sch == "cn" else "gear_start"
+                else:
+                    Qm2 = states[s - 2].data[0]
+                    r = 3 * Qn - 4 * Qo + Qm2 - 2 * h * (A @ Qn + bvec)
+                    scale = (max(np.max(np.abs(Qo)), np.max(np.abs(Qm2))) + np.max(np.abs(bvec)) * h) * (1.0 + h * np.max(np.sum(np.abs(A), axis=1)))
+                    rr = core.ulps(float(np.max(np.abs(r))), 0.0, float(scale))
+                    name = "bdf2"
+                recs.append(dict(kind="lin", scheme=name, relres=rr, tadv=0, cls=cn, n=n, mesh=mk, recon=rname, cfl=cfl, a=a, step=s,
+                                 bc=bctype, dtlocal=0, via="solve"))
+                rep.nontrivial.add(("lin-solve", cn, n, mk, rname, cfl, a, bctype))
     return recs
 
 
